@@ -106,6 +106,14 @@ func (fr *frame) evalCall(st *State, call *ast.CallExpr) []*Value {
 		panic(unsupported("call of " + exprString(call.Fun)))
 	}
 	sig := fn.Type().(*types.Signature)
+	if fr.fc.reg.isNoEffect(fn.FullName()) {
+		// dropped call: evaluate the arguments (they may contain checked operations), pack nothing
+		for _, a := range call.Args {
+			fr.eval(st, a)
+		}
+		fr.fc.reg.dropped[fn.FullName()]++
+		return fr.opaqueResults(st, sig, "dropped")
+	}
 	args := fr.evalArgs(st, call, sig)
 	return fr.callFunc(st, call, fn, recv, args)
 }
@@ -886,8 +894,10 @@ func (fr *frame) callUnknownFuncValue(st *State, call *ast.CallExpr, fv *Value) 
 	args := fr.evalArgs(st, call, sig)
 	if n, ok := t.(*types.Named); ok {
 		k2 := n.Obj().Pkg().Path() + "." + n.Obj().Name()
-		if c := fc.reg.contracts[k2]; c != nil {
-			return fr.applyContractSig(st, call, k2, sig, fc.reg.pkgs[n.Obj().Pkg().Path()], c, fv, args)
+		for _, k := range []string{k2 + ".call", k2} {
+			if c := fc.reg.contracts[k]; c != nil {
+				return fr.applyContractSig(st, call, n.Obj().Name(), sig, fc.reg.pkgs[n.Obj().Pkg().Path()], c, fv, args)
+			}
 		}
 	}
 	// parameter of function type with contract attached to the enclosing contract: "param:<name>"
